@@ -91,6 +91,20 @@ def program(c):
     return "\n".join(src) + "\n"
 
 
+# Module names are the user's: the matrix is replayed under several naming schemes.  What a module path denotes
+# must not depend on how the names relate as *strings* (one a prefix of the other, one containing the other).
+SCHEMES = {
+    "plain": {},
+    "prefix": {"m": "osc", "k": "osc2", "n": "os", "h": "osc2x"},         # every name is a prefix of / prefixed by another
+    "suffix": {"m": "xosc", "k": "osc", "n": "sc", "h": "c"},             # ... or a suffix
+}
+
+
+def rename_modules(src, scheme):
+    import re
+    return re.sub(r"\b(m|k|n|h)\b", lambda mo: scheme.get(mo.group(1), mo.group(1)), src) if scheme else src
+
+
 def run(tier):
     chk = vlib.Check("C17", "model_checking", tier)
     vlib.build_harness()
@@ -102,7 +116,10 @@ def run(tier):
     if r.violation:
         chk.violation(f"model: {r.violation}", {"tlc": vlib.tlc_error_trace(r.stdout)}, key="model")
     cases = r.tagged["REPLAY"]
-    reqs = [{"id": i, "src": program(c["cfg"]), "n": 2, "backends": ["vm", "wasm"], "sched": False} for i, c in enumerate(cases)]
+    ncfg = len(cases)
+    cases = [dict(c, scheme=sn) for sn in SCHEMES for c in cases]
+    reqs = [{"id": i, "src": rename_modules(program(c["cfg"]), SCHEMES[c["scheme"]]), "n": 2, "backends": ["vm", "wasm"], "sched": False}
+            for i, c in enumerate(cases)]
     res = vlib.run_harness("run", reqs, timeout_per_req=20)
     pins = {}
     d = os.path.join(vlib.VERIF, "findings", "C17")
@@ -137,9 +154,10 @@ def run(tier):
                 elif st != "reject":
                     bad = f"must be rejected with a diagnostic but: {st} {b.get('msg', '')[:120]}"
             if bad:
-                what = pins[key]["what"] if key in pins else f"{be}: {json.dumps(c['cfg'])}: {bad}\n{req['src']}"
+                what = pins[key]["what"] if key in pins else f"{be}: {json.dumps(c['cfg'])} (names: {c['scheme']}): {bad}\n{req['src']}"
                 chk.violation(what, dict(case, backend=be), key=key)
-    chk.cov["cases"] = len(cases)
+    chk.cov["cases"] = ncfg
+    chk.cov["naming_schemes"] = sorted(SCHEMES)
     chk.cov["evaluations"] = len(cases) * 2
     chk.cov["distinct_nontrivial"] = len(cases)
     chk.cov["rule"] = "every applicable combination of pub flags x re-export x reference form x position (TLC, exhaustive)"
